@@ -132,6 +132,7 @@ FS_TOKENS = [
     (r"\.exists\(\)", "exists"),
     (r"\bFile::open\b", "fileOpen"),
     (r"\bread_to_string\b", "readToString"),
+    (r"\bread_to_end\b", "readToString"),
     (r"\bfs::remove_file\b", "removeFile"),
     (r"\bfs::create_dir_all\b", "createDirAll"),
     (r"\bOpenOptions::new\b", "openOptionsNew"),
@@ -171,6 +172,8 @@ def lock_rs():
     spans = {}
     fns = {}
     for name, body, span in functions(code):
+        if name == "drop" and "self.path" not in body:
+            continue            # `impl Drop for DirGuard`, not the lock file's Drop
         fns.setdefault(name, body)
         spans.setdefault(name, span)
     for need in ("acquire", "drop", "is_process_running"):
@@ -223,29 +226,40 @@ def lock_rs():
     defaults = re.findall(r"\.parse::<(u\d+)>\(\)\s*\.unwrap_or\((\d+)\)", acq)
     if len(defaults) != 2:
         raise TranslateError("lock.rs: expected two `.parse::<uN>().unwrap_or(k)`")
-    # the decision chain
+    # the decision chain: `if stale {remove} else if running {fail} else {remove}`  (stale first), or
+    # `if pid != 0 && running {fail} else if stale {remove} else {remove}`        (a live holder is never stale)
     chain = []
-    m = re.search(r"\bif\s+(current_time\s*-\s*timestamp|current_time\.saturating_sub\(timestamp\))\s*(>=|>|<=|<)\s*"
-                  r"STALE_LOCK_TIMEOUT_SECS\s*\{", acq)
+    stale_re = (r"(current_time\s*-\s*timestamp|current_time\.saturating_sub\(timestamp\))\s*(>=|>|<=|<)\s*"
+                r"STALE_LOCK_TIMEOUT_SECS")
+    run_re = r"(!?)\s*(pid\s*!=\s*0\s*&&\s*)?is_process_running\(pid\)"
+    m = re.search(r"\bif\s+(?:" + stale_re + "|" + run_re + r")\s*\{", acq)
     if not m:
-        raise TranslateError("lock.rs: stale test `current_time - timestamp > STALE_LOCK_TIMEOUT_SECS` not found")
-    saturating = "saturating_sub" in m.group(1)
-    stale_op = m.group(2)
-    end1 = match_brace(acq, m.end() - 1)
-    blk1 = acq[m.end():end1]
-    chain.append(("stale" + {">": "Gt", ">=": "Ge", "<": "Lt", "<=": "Le"}[stale_op], branch_action(blk1)))
-    rest = acq[end1:]
-    m2 = re.match(r"\s*else\s+if\s+(!?)\s*is_process_running\(pid\)\s*\{", rest)
-    if not m2:
-        raise TranslateError("lock.rs: `else if is_process_running(pid)` not found after the stale branch")
-    end2 = match_brace(rest, m2.end() - 1)
-    chain.append(("notRunning" if m2.group(1) else "running", branch_action(rest[m2.end():end2])))
-    rest2 = rest[end2:]
-    m3 = re.match(r"\s*else\s*\{", rest2)
-    if not m3:
-        raise TranslateError("lock.rs: final `else` of the decision chain not found")
-    end3 = match_brace(rest2, m3.end() - 1)
-    chain.append(("otherwise", branch_action(rest2[m3.end():end3])))
+        raise TranslateError("lock.rs: the stale / running decision chain was not found")
+    saturating = None
+    live_first = m.group(1) is None
+    rest = acq[m.start():]
+    for k in range(3):
+        if k < 2:
+            mm = re.match(r"\s*(?:else\s+)?if\s+(?:" + stale_re + "|" + run_re + r")\s*\{", rest)
+            if not mm:
+                raise TranslateError("lock.rs: unrecognised condition in the stale / running decision chain")
+            if mm.group(1) is not None:
+                saturating = "saturating_sub" in mm.group(1)
+                cond = "stale" + {">": "Gt", ">=": "Ge", "<": "Lt", "<=": "Le"}[mm.group(2)]
+            else:
+                cond = "notRunning" if mm.group(3) else "running"
+                if live_first and not mm.group(4):
+                    raise TranslateError("lock.rs: liveness is tested first but pid 0 (= did not parse) is not excluded")
+        else:
+            mm = re.match(r"\s*else\s*\{", rest)
+            if not mm:
+                raise TranslateError("lock.rs: final `else` of the decision chain not found")
+            cond = "otherwise"
+        end = match_brace(rest, mm.end() - 1)
+        chain.append((cond, branch_action(rest[mm.end():end])))
+        rest = rest[end:]
+    if saturating is None:
+        raise TranslateError("lock.rs: stale test not found in the decision chain")
     # signal-0 probe
     probes = [b for n, b, _ in functions(code) if n == "is_process_running"]
     if not any(re.search(r"libc::kill\(\s*pid\s+as\s+libc::pid_t\s*,\s*0\s*\)\s*==\s*0", b) for b in probes):
@@ -266,6 +280,23 @@ def lock_rs():
         if "exists" in drop:
             raise TranslateError("lock.rs: Drop both checks existence and content")
         drop_checks = True
+    def guarded_before(body, first_use):
+        g = re.search(r"\blet\s+_guard\s*=\s*[^;]*DirGuard::lock", body)
+        u = re.search(first_use, body)
+        return bool(g and u and g.start() < u.start())
+    g_acq = guarded_before(acq, r"lock_path\.exists\(\)")
+    g_drop = guarded_before(fns["drop"], r"owns_lock_file\(")
+    g_rel = guarded_before(fns.get("release_held_locks", ""), r"owns_lock_file\(")
+    if len({g_acq, g_drop, g_rel}) != 1:
+        raise TranslateError(f"lock.rs: guard present in some sequences only (acquire={g_acq} drop={g_drop} release_held_locks={g_rel})")
+    if g_acq:
+        gl = fns.get("lock", "")
+        if not (re.search(r"libc::flock\(.*?libc::LOCK_EX\s*\)", gl) and "DirGuard" in code
+                and re.search(r"libc::flock\(.*?libc::LOCK_UN\s*\)", code)):
+            raise TranslateError("lock.rs: DirGuard is not flock(LOCK_EX) … flock(LOCK_UN)")
+        if shape[:1] != ["createDirAll"]:
+            raise TranslateError("lock.rs: guarded acquire must create the directory first")
+    lossy = bool(re.search(r"read_to_end\(", acq) and re.search(r"String::from_utf8_lossy\(", acq))
     held_registered = bool(re.search(r"(?:write_all|hard_link)[\s\S]*HELD_LOCKS[\s\S]*\.push\(", acq)
                            and re.search(r"HELD_LOCKS[\s\S]*\.retain\(", fns["drop"]))
     main = strip_test_modules(blank_noncode(read("renamify-cli/src/main.rs")))
@@ -277,6 +308,7 @@ def lock_rs():
         mr, mx = re.search(r"release_held_locks\(\)", blk), re.search(r"process::exit\(", blk)
         prompt_releases = bool(mr and mx and mr.start() < mx.start())
     return {"timeout": timeout, "shape": shape, "drop": drop, "release_held": release_held, "abandon": abandon, "by_link": by_link, "saturating": saturating, "drop_checks": drop_checks,
+            "guarded": g_acq, "live_first": live_first, "lossy": lossy,
             "held_registered": held_registered, "prompt_releases": prompt_releases,
             "parts_op": parts_op, "parts_n": parts_n,
             "defaults": defaults, "chain": chain, "release_callers": release_callers}
@@ -471,6 +503,16 @@ def render(lock, variants, rows, acquiring, release_sites):
         "",
         "/-- Drop removes the file only if `owns_lock_file` (content == \"pid:timestamp\") -/",
         f"def dropChecksContent : Bool := {lean_bool(lock['drop_checks'])}",
+        "",
+        "/-- acquire, Drop and release_held_locks run their inspect-then-change sequence under `DirGuard::lock` =",
+        "    flock(LOCK_EX) on `.renamify` -/",
+        f"def guardedSequences : Bool := {lean_bool(lock['guarded'])}",
+        "",
+        "/-- the decision tests `pid != 0 && is_process_running(pid)` before the age: a live holder is never stale -/",
+        f"def liveNeverStale : Bool := {lean_bool(lock['live_first'])}",
+        "",
+        "/-- the lock file is read with read_to_end + String::from_utf8_lossy (not UTF-8 = unparsable) -/",
+        f"def readsLossily : Bool := {lean_bool(lock['lossy'])}",
         "",
         "/-- the lock file is published complete: `fs::write(&tmp_path, ..)` then `fs::hard_link(&tmp_path, &lock_path)` -/",
         f"def publishByLink : Bool := {lean_bool(lock['by_link'])}",
